@@ -1,0 +1,65 @@
+//go:build verif
+
+package kfake
+
+// Verification contracts (comments only), read by /verif/govc. Compiled only with -tags verif; no code.
+
+// ---- C32: the partition log's offsets and last stable offset (the sequential kernel) ----
+// Log-bounds invariant of a partition (stated as pre/postcondition of the two functions that move the bounds):
+//   lsoInv:  lastStableOffset <= highWatermark,
+//            no open transaction  ==> lastStableOffset == highWatermark,
+//            every open transaction's first offset is >= lastStableOffset (the LSO stops at the first offset of
+//            the earliest open transaction).
+
+// recalculateLSO: the last stable offset becomes the smallest first offset of an open transaction, capped at the
+// high watermark; the high watermark itself when none is open.
+//@ func (pd *partData) recalculateLSO()
+//@   prop C32
+//@   nopanic
+//@   modifies pd.lastStableOffset
+//@   ensures [never-above-hwm] pd.lastStableOffset <= pd.highWatermark
+//@   ensures [hwm-when-nothing-open] len(pd.uncommittedPIDs) == 0 ==> pd.lastStableOffset == pd.highWatermark
+//@   ensures [stops-at-every-open-txn] forall p int64 :: in(pd.uncommittedPIDs, p) ==> pd.lastStableOffset <= pd.uncommittedPIDs[p]
+//@   ensures [is-the-minimum] pd.lastStableOffset == pd.highWatermark || (exists p int64 :: in(pd.uncommittedPIDs, p) && pd.lastStableOffset == pd.uncommittedPIDs[p])
+//@   loop 0 invariant lso <= pd.highWatermark
+//@   loop 0 invariant forall p int64 :: visited(p) ==> (in(pd.uncommittedPIDs, p) && lso <= pd.uncommittedPIDs[p])
+//@   loop 0 invariant lso == pd.highWatermark || (exists p int64 :: visited(p) && in(pd.uncommittedPIDs, p) && lso == pd.uncommittedPIDs[p])
+
+// the persistence layer (segment files, index) does not touch the log bounds (trusted frame: of the memory this
+// proof looks at it writes pd.segments and the two file-handle fields; the files themselves are outside the model)
+//@ func (c *Cluster) persistBatchToSegment(pd *partData, b *partBatch) (pos int64)
+//@   prop C32
+//@   trusted frame of the persistence code (segments and file handles only)
+//@   modifies pd.segments, pd.activeSegFile, pd.activeIdxFile, elems(pd.segments[:cap(pd.segments)])
+//@   ensures pos >= -1 && (pos >= 0 ==> len(pd.segments) >= 1)
+
+// helpers of pushBatch: they read, or write only a segment's epoch range (verified: frame obligations)
+//@ func (b *partBatch) meta(segPos int64) (m batchMeta)
+//@   prop C32
+//@   pure
+//@ func (si *segmentInfo) updateEpochRange(epoch int32)
+//@   prop C32
+//@   modifies si.minEpoch, si.maxEpoch
+//@ func (pd *partData) maxTimestampBatch() (m *batchMeta)
+//@   prop C32
+//@   pure
+
+// pushBatch, up to the bookkeeping of the partition's byte count (what follows only notifies watchers): the batch
+// gets the high watermark as its first offset, the high watermark advances by exactly the batch's record count,
+// the value returned is the batch's first offset, and the log-bounds invariant is preserved - a transactional
+// batch registers its producer at its first offset unless the producer already has an earlier open one.
+//@ func (c *Cluster) pushBatch(pd *partData, nbytes int, b kmsg.RecordBatch, inTx bool) (first int64)
+//@   prop C32
+//@   requires b.NumRecords >= 0 && pd.highWatermark >= 0 && pd.highWatermark <= 4611686018427387904
+//@   requires pd.lastStableOffset <= pd.highWatermark
+//@   requires len(pd.uncommittedPIDs) == 0 ==> pd.lastStableOffset == pd.highWatermark
+//@   requires forall p int64 :: in(pd.uncommittedPIDs, p) ==> pd.lastStableOffset <= pd.uncommittedPIDs[p]
+//@   site store FirstOffset#0 assert [first-offset-is-the-high-watermark] val == old(pd.highWatermark)
+//@   site store highWatermark#0 assert [contiguous] prev == old(pd.highWatermark) && val == prev + int64(b.NumRecords)
+//@   site store nbytes#1 assert [lso-never-above-hwm] pd.lastStableOffset <= pd.highWatermark
+//@   site store nbytes#1 assert [lso-is-hwm-when-nothing-open] len(pd.uncommittedPIDs) == 0 ==> pd.lastStableOffset == pd.highWatermark
+//@   site store nbytes#1 assert [lso-stops-at-every-open-txn] forall p int64 :: in(pd.uncommittedPIDs, p) ==> pd.lastStableOffset <= pd.uncommittedPIDs[p]
+//@   site store nbytes#1 assert [transactional-batch-is-open] inTx ==> in(pd.uncommittedPIDs, b.ProducerID)
+//@   site store nbytes#1 assert [open-at-or-before-this-batch] inTx ==> pd.uncommittedPIDs[b.ProducerID] <= old(pd.highWatermark)
+//@   site store nbytes#1 assert [returns-the-first-offset] firstOffset == old(pd.highWatermark)
+//@   site store nbytes#1 assert [lso-unchanged-while-open] old(len(pd.uncommittedPIDs)) > 0 ==> pd.lastStableOffset == old(pd.lastStableOffset)
